@@ -861,10 +861,13 @@ func genC15(w *bufio.Writer, rng *hx.Rng, tier string) {
 
 // ---------------------------------------------------------------- real pipeline (trace cases)
 //
-//	c15.pipe <nprocs> <negate> <max> <startRe> <contRe> <nstreams> stream…
+//	c15.pipe <nprocs> <negate> <max> <startRe> <contRe> <chain> <nstreams> stream…
+//	    chain  = string over {v, j} with exactly one j: the action chain; j = the real join,
+//	             v = a scripted verdict action: it discards the event iff character <position in
+//	             the chain> of the event's "v" field is 'D' (field or character absent = pass)
 //	    stream = <sourceID> <streamName> <n> item…
-//	    item   = P | E <id> <startOK> <contOK> <tree>     (tree = {"log":…,"stream":<name>,"id":<id>})
-//	result = <ncalls> call… <nstreams> (<nout> <tree>…)… (ok | stuck)
+//	    item   = P | E <id> <startOK> <contOK> <tree>     (tree = {"log":…,"stream":<name>,"id":<id>,"v":…})
+//	result = <ncalls> call… <nstreams> (<nout> <tree>…)… (ok | stuck | panic)
 //	    call = <instance> (T <tag> | E <id>) R <res> <nprop> (<tag> <tree>)… (N | E <tag> <tree>)
 //
 // A real pipeline (fake input, devnull output, one `join` action) runs with <nprocs> processors.
@@ -895,7 +898,47 @@ type c15Rec struct {
 	lastRes  map[int]pipeline.ActionResult // per tag: answer to the stream's latest call
 	doneEv   map[int]int                   // per tag: regular events seen by Do
 	timeouts map[int]int                   // per tag: time-out calls seen
-	cur      map[int]*c15PipeCall          // per instance: call in progress
+	cur      map[int][]*c15PipeCall        // per instance: calls in progress (a stack: Propagate may re-enter Do)
+	chain    string
+	jpos     int
+	wantOut  int  // events that must reach the output: sent on by join and passed by every later action
+	panicked bool // some Do call panicked (recovered by the recorder, answered Discard)
+}
+
+// does every verdict action at the given chain positions pass the event
+func c15VerdictPass(v string, chain string, from, to int) bool {
+	for k := from; k < to && k < len(chain); k++ {
+		if chain[k] == 'v' && k < len(v) && v[k] == 'D' {
+			return false
+		}
+	}
+	return true
+}
+
+func c15VerdictOf(e *pipeline.Event) string {
+	if e.Root == nil {
+		return ""
+	}
+	return e.Root.Dig("v").AsString()
+}
+
+// scripted verdict action
+type c15Verdict struct{ pos int }
+type c15VerdictCfg struct{ pos int }
+
+func (a *c15Verdict) Start(config pipeline.AnyConfig, _ *pipeline.ActionPluginParams) {
+	a.pos = config.(*c15VerdictCfg).pos
+}
+func (a *c15Verdict) Stop() {}
+func (a *c15Verdict) Do(e *pipeline.Event) pipeline.ActionResult {
+	if e.IsTimeoutKind() {
+		return pipeline.ActionDiscard
+	}
+	v := c15VerdictOf(e)
+	if a.pos < len(v) && v[a.pos] == 'D' {
+		return pipeline.ActionDiscard
+	}
+	return pipeline.ActionPass
 }
 
 func c15StreamKey(e *pipeline.Event) string {
@@ -922,8 +965,12 @@ func (c *c15RecCtl) Propagate(e *pipeline.Event) {
 	r := c.w.rec
 	r.mu.Lock()
 	tag := r.tagOf[c15StreamKey(e)]
-	if call := r.cur[c.w.idx]; call != nil {
+	if st := r.cur[c.w.idx]; len(st) > 0 {
+		call := st[len(st)-1]
 		call.props = append(call.props, strconv.Itoa(tag)+" "+jt.FromNode(e.Root.Node).Tok())
+		if c15VerdictPass(c15VerdictOf(e), r.chain, r.jpos+1, len(r.chain)) {
+			r.wantOut++
+		}
 	}
 	r.mu.Unlock()
 	c.inner.Propagate(e)
@@ -954,12 +1001,20 @@ func (w *c15RecPlugin) Do(e *pipeline.Event) pipeline.ActionResult {
 		call.id = e.Root.Dig("id").AsInt()
 	}
 	r.calls = append(r.calls, call) // global order = order of Do entries
-	r.cur[w.idx] = call
+	r.cur[w.idx] = append(r.cur[w.idx], call)
 	r.mu.Unlock()
 
-	res := w.inner.Do(e)
+	res, end := c15Do(w.inner, e)
 
 	r.mu.Lock()
+	if end != "" {
+		// Panicf inside the plugin: keep the process alive, the run is reported as `panic`
+		r.panicked = true
+		res = pipeline.ActionDiscard
+	}
+	if res == pipeline.ActionPass && !call.timeout && c15VerdictPass(c15VerdictOf(e), r.chain, r.jpos+1, len(r.chain)) {
+		r.wantOut++
+	}
 	call.res = res
 	if !call.timeout {
 		call.self = jt.FromNode(e.Root.Node).Tok()
@@ -968,15 +1023,18 @@ func (w *c15RecPlugin) Do(e *pipeline.Event) pipeline.ActionResult {
 		r.timeouts[call.tag]++
 	}
 	r.lastRes[call.tag] = res
-	r.cur[w.idx] = nil
+	if st := r.cur[w.idx]; len(st) > 0 {
+		r.cur[w.idx] = st[:len(st)-1]
+	}
 	r.mu.Unlock()
 	return res
 }
 
 type c15PipeItem struct {
-	pause bool
-	id    int
-	tree  *jt.Tree
+	pause   bool
+	id      int
+	tree    *jt.Tree
+	reaches bool // no verdict action before the join discards it
 }
 
 type c15PipeStream struct {
@@ -993,10 +1051,12 @@ func execC15Pipe(t *hx.Toks) string {
 	max := t.Int()
 	startRe := string(t.Bytes())
 	contRe := string(t.Bytes())
+	chain := t.Next()
 	nstreams := t.Int()
-	if t.Err != nil || nprocs < 1 || nprocs > 8 {
+	if t.Err != nil || nprocs < 1 || nprocs > 8 || strings.Count(chain, "j") != 1 || strings.Trim(chain, "vj") != "" {
 		return "bad-case"
 	}
+	jpos := strings.IndexByte(chain, 'j')
 	sre, err1 := regexp.Compile(startRe)
 	cre, err2 := regexp.Compile(contRe)
 	if err1 != nil || err2 != nil {
@@ -1029,8 +1089,12 @@ func execC15Pipe(t *hx.Toks) string {
 				if !isStr || sname != st.name || sid != strconv.Itoa(id) {
 					return "bad-case"
 				}
-				st.items = append(st.items, c15PipeItem{id: id, tree: tree})
-				nevents++
+				_, _, verdict := c15Field(tree, []string{"v"})
+				reaches := c15VerdictPass(verdict, chain, 0, jpos)
+				st.items = append(st.items, c15PipeItem{id: id, tree: tree, reaches: reaches})
+				if reaches {
+					nevents++ // events the join instance must see
+				}
 			default:
 				return "bad-case"
 			}
@@ -1044,7 +1108,7 @@ func execC15Pipe(t *hx.Toks) string {
 	rec := &c15Rec{
 		tagOf: map[string]int{}, outs: make([][]string, len(streams)),
 		lastRes: map[int]pipeline.ActionResult{}, doneEv: map[int]int{}, timeouts: map[int]int{},
-		cur: map[int]*c15PipeCall{},
+		cur: map[int][]*c15PipeCall{}, chain: chain, jpos: jpos,
 	}
 	for i, st := range streams {
 		key := strconv.Itoa(st.source) + "/" + st.name
@@ -1104,17 +1168,31 @@ func execC15Pipe(t *hx.Toks) string {
 		rec.nout++
 		rec.mu.Unlock()
 	})
-	p.AddAction(&pipeline.ActionPluginStaticInfo{
-		PluginStaticInfo: &pipeline.PluginStaticInfo{
-			Type: "join",
-			Factory: func() (pipeline.AnyPlugin, pipeline.AnyConfig) {
-				pl, _ := info.Factory()
-				return &c15RecPlugin{inner: pl.(pipeline.ActionPlugin)}, nil
+	for pos := range chain {
+		if chain[pos] == 'v' {
+			k := pos
+			p.AddAction(&pipeline.ActionPluginStaticInfo{
+				PluginStaticInfo: &pipeline.PluginStaticInfo{
+					Type:    "verdict",
+					Factory: func() (pipeline.AnyPlugin, pipeline.AnyConfig) { return &c15Verdict{}, nil },
+					Config:  &c15VerdictCfg{pos: k},
+				},
+				MatchMode: pipeline.MatchModeAnd,
+			})
+			continue
+		}
+		p.AddAction(&pipeline.ActionPluginStaticInfo{
+			PluginStaticInfo: &pipeline.PluginStaticInfo{
+				Type: "join",
+				Factory: func() (pipeline.AnyPlugin, pipeline.AnyConfig) {
+					pl, _ := info.Factory()
+					return &c15RecPlugin{inner: pl.(pipeline.ActionPlugin)}, nil
+				},
+				Config: &c15RecCfg{inner: jc, rec: rec},
 			},
-			Config: &c15RecCfg{inner: jc, rec: rec},
-		},
-		MatchMode: pipeline.MatchModeAnd,
-	})
+			MatchMode: pipeline.MatchModeAnd,
+		})
+	}
 	// processor count = GOMAXPROCS*2 at Start (1 when parallelism is disabled)
 	old := runtime.GOMAXPROCS(0)
 	if nprocs == 1 {
@@ -1158,7 +1236,9 @@ func execC15Pipe(t *hx.Toks) string {
 					continue
 				}
 				input.In(pipeline.SourceID(st.source), "src"+strconv.Itoa(st.source), pipeline.NewOffsets(int64(k+1), nil), it.tree.JSON())
-				fed++
+				if it.reaches {
+					fed++
+				}
 			}
 		}(tag, st)
 	}
@@ -1166,26 +1246,25 @@ func execC15Pipe(t *hx.Toks) string {
 	// the end: every event seen, no run open (pending runs are closed by the stream time-out),
 	// and everything that was sent on has arrived at the output
 	done := deadline(15*time.Second, func() bool {
-		n, want := 0, 0
+		n := 0
 		for tag := range streams {
 			n += rec.doneEv[tag]
 			if busy(tag) {
 				return false
 			}
 		}
-		for _, c := range rec.calls {
-			want += len(c.props)
-			if c.res == pipeline.ActionPass && !c.timeout {
-				want++
-			}
-		}
-		return n == nevents && rec.nout == want
+		return n == nevents && rec.nout == rec.wantOut
 	})
 	p.Stop()
 	end := "ok"
 	if !done || stuck {
 		end = "stuck" // the trace so far is still reported: the oracle can say which hypothesis broke
 	}
+	rec.mu.Lock()
+	if rec.panicked {
+		end = "panic"
+	}
+	rec.mu.Unlock()
 
 	rec.mu.Lock()
 	defer rec.mu.Unlock()
@@ -1233,9 +1312,13 @@ func genC15Pipe(w *bufio.Writer, rng *hx.Rng, tier string) {
 			path:    []string{"log"},
 		}
 		c.compile()
-		nprocs := []int{1, 2, 2, 4, 4}[rng.Intn(5)]
-		nstreams := rng.Range(2, 6)
-		fmt.Fprintf(w, "c15.pipe %d %s %d %s %s %d", nprocs, hx.B(c.negate), c.max, hx.Enc([]byte(c.startRe)), hx.Enc([]byte(c.contRe)), nstreams)
+		nprocs := []int{1, 2, 2, 4, 4, 8}[rng.Intn(6)]
+		nstreams := rng.Range(1, 6)
+		// the join alone, or with scripted verdict actions before / after it: an event discarded
+		// upstream never reaches the join (the run goes on across it), a joined event discarded
+		// downstream (verdict of its start line) must vanish without disturbing the next run
+		chain := []string{"j", "jv", "jv", "jv", "vj", "vjv", "vjv", "jvv"}[rng.Intn(8)]
+		fmt.Fprintf(w, "c15.pipe %d %s %d %s %s %s %d", nprocs, hx.B(c.negate), c.max, hx.Enc([]byte(c.startRe)), hx.Enc([]byte(c.contRe)), chain, nstreams)
 		id := 0
 		used := map[string]bool{}
 		for s := 0; s < nstreams; s++ {
@@ -1267,7 +1350,21 @@ func genC15Pipe(w *bufio.Writer, rng *hx.Rng, tier string) {
 					obj.Obj = append(obj.Obj, jt.F("log", v))
 				}
 				obj.Obj = append(obj.Obj, jt.F("stream", jt.S(name)), jt.F("id", jt.Nu(strconv.Itoa(id))))
-				_, _, val := c15Field(obj, c.path)
+				_, isStr, val := c15Field(obj, c.path)
+				if len(chain) > 1 && !rng.Chance(1, 8) {
+					// verdict per chain position; start lines are discarded downstream more often
+					vb := []byte(strings.Repeat("P", len(chain)))
+					for k := range vb {
+						den := 6
+						if isStr && c.sre.MatchString(val) && k > strings.IndexByte(chain, 'j') {
+							den = 2
+						}
+						if chain[k] == 'v' && rng.Chance(1, den) {
+							vb[k] = 'D'
+						}
+					}
+					obj.Obj = append(obj.Obj, jt.F("v", jt.S(string(vb))))
+				}
 				fmt.Fprintf(&sb, " E %d %s %s %s", id, hx.B(c.sre.MatchString(val)), hx.B(c.cre.MatchString(val)), obj.Tok())
 				cnt++
 			}
